@@ -5,7 +5,7 @@ const { hash } = require('../lib/canon');
 const H = require('../lib/hspace');
 const HG = require('../lib/hgen');
 
-function requests(c) { if (c.items) return [{ src: H.renderHistory(c.items), opts: JSON.stringify({ transformOn: true }) }]; return [{ src: G.render(c), ts: !!c.ts, opts: JSON.stringify(c.o || {}) }]; }
+function requests(c) { if (c.items) return [{ src: H.renderHistory(c.items, !!c.ts), ts: !!c.ts, opts: JSON.stringify({ transformOn: true, resolveType: !!c.ts }) }]; return [{ src: G.render(c), ts: !!c.ts, opts: JSON.stringify(c.o || {}) }]; }
 
 function judge(c, resps) {
   const r = resps[0];
@@ -28,9 +28,9 @@ module.exports = {
   rule: 'exhaustive enumeration of the "legal but unusual" JSX grammar: tag form (html, component, member, this-member, namespaced, dashed, fragment) × every attribute name kind × every attribute value kind (incl. element/fragment values, array forms with holes/spreads/non-identifier modifier strings) × child form, pairs of attributes over a core, pragma-comment variants × option corners, in .jsx and .tsx; each state is transformed by the real visitor; oracle on driver facts: an error diagnostic was reported, or the raw output AST contains no JSX node of any kind and the printed output re-parses with JSX disabled. Inputs the parser rejects are skipped (outside the quantifier). Distinct = distinct printed outputs.',
   assumptions: ['SWC parser (accepts/rejects inputs; re-parse of the output)', 'JSX census visitor over the raw output AST', 'collecting diagnostic emitter'],
   spaces: (tier) => [{ name: 'G:grammar', bounds: { tags: Object.keys(G.TAGS), attr_names: G.ATTR_NAMES, attr_values: Object.keys(G.ATTR_VALUES), children: Object.keys(G.CHILDREN), pragmas: Object.keys(G.PRAGMAS), option_corners: G.OPT_CORNERS }, *gen() { yield* G.cases(tier); } },
-    { name: 'H:statement-contexts', bounds: { note: 'every H item (syntactic context ∘ lowering, statement-level forms) alone, and core pairs', items: HG.ALL.length }, *gen() { for (const it of HG.ALL) yield { items: [it] }; for (const a of HG.CORE) for (const b of HG.CORE) if (HG.onceOk([a, b])) yield { items: [a, b] }; } }],
+    { name: 'H:statement-contexts', bounds: { note: 'every H item (syntactic context ∘ lowering, statement-level forms) alone, and core pairs', items: HG.ALL.length }, *gen() { for (const it of HG.ALL) yield { items: [it] }; for (const a of HG.CORE) for (const b of HG.CORE) if (HG.onceOk([a, b])) yield { items: [a, b] }; for (const t of Object.keys(H.T)) { yield { items: [{ t }], ts: true }; for (const u of Object.keys(H.T)) yield { items: [{ t }, { t: u }], ts: true }; } } }],
   requests, judge,
-  *shrink(c) { if (c.items) { for (const items of HG.shrinkItems(c.items)) if (items.length) yield { items }; } else yield* G.shrink(c); },
-  caseKey: (c) => (c.items ? 'H:' + HG.key(c.items) : G.key(c)),
+  *shrink(c) { if (c.items) { for (const items of HG.shrinkItems(c.items)) if (items.length) yield { items, ts: c.ts }; } else yield* G.shrink(c); },
+  caseKey: (c) => (c.items ? 'H:' + HG.key(c.items) + (c.ts ? ' {tsx resolveType}' : '') : G.key(c)),
   depth: (c) => c.items ? c.items.length : c.attrs.length + (c.ch !== 'none') + (c.pragma && c.pragma !== 'none' ? 1 : 0),
 };
